@@ -36,11 +36,18 @@ fn gen_char(src: &mut Src, classes: &mut Vec<&'static str>) -> char {
 	}
 }
 pub fn gen_string(src: &mut Src, classes: &mut Vec<&'static str>) -> String {
-	let n = match src.weighted(&[2, 6, 3, 1]) {
+	let n = match src.weighted(&[4, 12, 6, 2, 1]) {
 		0 => 0,
 		1 => src.range(1, 4),
 		2 => src.range(5, 12),
-		_ => src.range(30, 80),
+		3 => src.range(30, 80),
+		_ => {
+			// long: a short generated chunk repeated to a few hundred characters
+			let chunk: Vec<char> = (0..src.range(1, 6)).map(|_| gen_char(src, classes)).collect();
+			let total = src.range(100, 600) as usize;
+			classes.push("long-string");
+			return chunk.iter().cycle().take(total).collect();
+		}
 	};
 	(0..n).map(|_| gen_char(src, classes)).collect()
 }
